@@ -4,14 +4,14 @@ from harness import common, gens, codecio, oracles
 from harness.common import Stream, hexb
 
 PID = "C10"
-LEAN_MODULES = ["Astm.Proofs.C10", "Astm.State.C10"]
+LEAN_MODULES = ["Astm.Proofs.C10", "Astm.State.C10", "Astm.Surface.C10"]
 THEOREMS = [
     "Astm.C10.encoded_shape", "Astm.C10.split_of_encoded", "Astm.C10.frames_within_size",
     "Astm.C10.frames_checksum_valid", "Astm.C10.frames_numbered_consecutively", "Astm.C10.frames_terminators",
     "Astm.C10.frame_texts_concatenate", "Astm.C10.intermediate_iff_not_last", "Astm.C10.join_of_split",
     "Astm.C10.join_decodes_same_records", "Astm.C10.fits_unsplit", "Astm.C10.small_size_refused",
     "Astm.C10.encode_numbering", "Astm.C10.iter_encode_numbering", "Astm.C10.example_split",
-    "Astm.C10.anchored_code_keeps_no_other_state",
+    "Astm.C10.anchored_code_keeps_no_other_state", "Astm.C10.anchored_code_keeps_its_signatures",
 ]
 RULE = ("exhaustive over (text length 0..L) x (size 5..S) x (start sequence number 0..Q) for single-record messages "
         "(quick: L=32,S=48,Q=8; thorough: L=64,S=80,Q=16), plus seeded multi-record / multi-field record lists with "
